@@ -86,4 +86,23 @@ CHECKS = {
   "text": "Load.tla states the allowed outcomes of a load (valid image: state replaced, tags kept; rejected: nothing changes; accepted corrupt: any state but no panic) and TLC checks atomicity on it, including that a non-atomic commit (deviation switch) is found. The harness enumerates 22k (quick) / 90k faults of two valid images, loads each into one long-lived engine with enabled tags, runs a 13-query battery (network, csp, cosmetic, class/id, tag_exists) and re-serializes after every load, interleaving valid loads; peak allocation during each load is measured. Trace_C10 replays the whole event sequence through the Load actions: the battery digest after a rejected load must equal the digest of the state before it.",
   "note": TB + "Allocation bound 64 MiB + 4 KiB/byte (counting allocator). Process aborts would surface as tool errors. Battery digests stand for engine state.",
  },
+
+ "C16": {
+  "level": "model_checking",
+  "technique": "TLA+ Ideal of per-site cosmetic resources (Cosmetic!HideSelectors/Actions/Scripts over label-sequence host covering) enumerated by TLC over rule lists x page hosts; replayed on Engine::url_cosmetic_resources, also after a serialize/deserialize round trip",
+  "text": "TLC enumerates all lists of <=2 (quick) / <=3 rules from a 37-rule pool (hostnames, subdomains, entities, public-suffix-only locations, negations, negation-only rules, generic rules, #@# at the same, a deeper and a shallower level than the rule they cancel, :style/:remove/:remove-attr/:remove-class, +js with arguments, blanket +js exception, IDN locations in non-first position) against 13 page hosts (depths 1-3 under com, co.uk and an IDN suffix, look-alike hosts) with $generichide exceptions; hide selectors, exceptions, action filters (parsed JSON), injected scriptlet calls and the generichide flag are compared as sets.",
+  "note": TB + "The public-suffix list is modelled for the suffixes of the universe (com, net, co.uk, рф); C12 checks the real resolver. Procedural operators need the css-validation feature and are not covered. Identical-text exception semantics follow the statement ('minus everything excepted for that host').",
+ },
+ "C17": {
+  "level": "model_checking",
+  "technique": "TLA+ CSS identifier unescaping (Cosmetic!LeadingKey) and partition invariant checked by TLC; enumerated generic rule sets x class/id/exception sets replayed on hidden_class_id_selectors and url_cosmetic_resources",
+  "text": "TLC enumerates all sets of <=2 (quick) / <=3 rules from 33 generic selectors (simple, compound, complex, escaped identifiers, hex escapes with and without terminating space and in both cases, non-ASCII, selectors with no extractable key) plus exceptions and negation-only rules, and all sets of <=3 / <=5 from a pool of complex rules sharing one leading class/id with exceptions naming some of them; for 9 x 4 class/id sets the lookup result (with the page's own exception set) and the per-site hide selectors are compared; TLC checks the partition invariant (reachable by lookup XOR delivered per site).",
+  "note": TB + "Hex escapes are decoded through a table covering the code points of the universe.",
+ },
+ "C18": {
+  "level": "model_checking",
+  "technique": "TLA+ permission gate over the dependency closure + argument-list parser (Cosmetic!Injection/ParseArgs); TLC-enumerated rule sets x permissions x resource stores replayed on the real engine; random argument lists recorded from the real engine validated by TLC (Decode(Encode(arg)) = arg)",
+  "text": "TLC enumerates all sets of <=2 (quick) / <=3 +js rules over 22 argument spellings x list permissions {0,1,2,3} against a store with permissioned scriptlets, permissioned transitive dependencies (incl. a dependency cycle and a missing dependency), aliases, template-style and non-injectable resources, identical and blanket exceptions; each page is queried 6 times because injection order varies per call. M3: 2.5k (quick) / 20k random argument lists (all C0 controls, quotes, backslashes, U+2028/9, $-sequences, non-ASCII, </script>) in random quoting styles go through a real engine; the emitted literals are parsed back and Trace_C18 checks them against the spec's ParseArgs.",
+  "note": TB + "serde_json stands in for a JavaScript string-literal parser (valid for ES2019). Escaped quote characters inside a quoted argument are not generated (their meaning is not pinned). The 256x256 mask table is covered through 4 permission values x resource requirements here and exhaustively by the repository's own subset test; redirect refusal of permissioned resources is covered in C13.",
+ },
 }
